@@ -203,6 +203,14 @@ func DrawSingle(r *rng.R, ts []Template, tplIdx int, bindIdx int) *Entry {
 		cases = append(cases, t.Gen(rng.New(wseed), rng.New(r.U64()), b))
 	}
 	cases[0] = t.Gen(rng.New(wseed), rng.New(r.U64()), b1)
+	if r.Chance(1, 15) {
+		// a node the operator refuses (or fails on) at Init in EVERY Run: an attribute it does not know, or one it
+		// knows and does not support. Binding nodes placed before it (Constant, Reshape, Concat) have run by then.
+		bad := refusedAttr(r, cases[0].Op)
+		for i := range cases {
+			cases[i].Attrs = append(append([]mb.Attr{}, cases[i].Attrs...), bad)
+		}
+	}
 	e := Bind(t.Name, cases, binds, t.Sensitive)
 	return e
 }
@@ -280,4 +288,21 @@ func RenameTricky(r *rng.R, e *Entry) {
 		}
 		e.InputSets[i] = ns
 	}
+}
+
+// refusedAttr returns an attribute that makes the operator's Init fail.
+func refusedAttr(r *rng.R, op string) mb.Attr {
+	switch op {
+	case "RNN", "GRU", "LSTM":
+		return pick(r, mb.AF("clip", 3), mb.AS("direction", "reverse"), mb.AS("direction", "bidirectional"), mb.AI("layout", 1), mb.AI("bogus_attribute", 1))
+	case "Conv":
+		return pick(r, mb.AI("group", 2), mb.AI("bogus_attribute", 1))
+	case "ArgMax":
+		return pick(r, mb.AI("select_last_index", 1), mb.AI("bogus_attribute", 1))
+	case "LinearRegressor":
+		return pick(r, mb.AS("post_transform", "SOFTMAX"), mb.AI("bogus_attribute", 1))
+	case "Constant":
+		return pick(r, mb.AS("value_string", "x"), mb.AStrings("value_strings", "x", "y"))
+	}
+	return pick(r, mb.AI("bogus_attribute", 1), mb.AF("another_bogus_attribute", 0.5), mb.AInts("axes_bogus", 1, 2))
 }
